@@ -296,6 +296,13 @@ try {
 
     instance.parse_stack_args(ca.l);
 
+    // an explicit script next to a transaction: the digest rules are those of the input it is checked against. parse_transaction guesses
+    // "segwit" as soon as ANY input has a witness, which is wrong for a legacy input of a mixed transaction
+    if (instance.script.size() > 0 && instance.tx && instance.sigver == SigVersion::WITNESS_V0) {
+        size_t idx = instance.txin_index > -1 ? instance.txin_index : 0;
+        if (idx < instance.tx->vin.size() && instance.tx->vin[idx].scriptWitness.IsNull()) instance.sigver = SigVersion::BASE;
+    }
+
     if (instance.txin && instance.tx && ca.l.size() == 0 && instance.script.size() == 0) {
         if (!instance.configure_tx_txin()) return 1;
     }
